@@ -483,6 +483,15 @@ Lemma sum_pend_upd s j x x' :
   (sumf pendn (set_nth j x' (jns s)) + pendn x = sumf pendn (jns s) + pendn x')%nat.
 Proof. intros E. exact (sumf_set_nth pendn j x x' _ E). Qed.
 
+Ltac jstep s j x :=
+  lazymatch goal with
+  | |- Inv ?S =>
+      let js := eval cbn [jns upd_jn] in (jns S) in
+      lazymatch js with
+      | set_nth _ ?x' _ => apply (inv_jn_ready s S j x x'); auto; simpl; auto
+      end
+  end.
+
 Lemma step_jn_inv j s s' evs : Inv s -> step_jn j s = Some (s', evs) -> Inv s'.
 Proof.
   intros I H. unfold step_jn in H.
@@ -522,14 +531,13 @@ Proof.
         assert (W0 : w s = 0).
         { rewrite C, H0. unfold wopen. rewrite <- Z.negb_even, SS. reflexivity. }
         destruct (L W0); [left; auto | right; unfold pending in *; lia].
-      Show.
     + (* JStop *)
       inversion H; subst s' evs; clear H.
-      eapply (inv_jn_ready s _ j x); eauto; simpl; auto.
+      jstep s j x.
     + (* JWait *)
       destruct (evt s) eqn:Ee.
       * inversion H; subst s' evs; clear H.
-        eapply (inv_jn_ready s _ j x); eauto; simpl; auto.
+        jstep s j x.
       * inversion H; subst s' evs; clear H.
         set (x' := {| jprog := r; jmode_ := JBlocked; jwaited := jwaited x |}).
         pose proof (sum_pend_upd s j x x' E) as HP.
@@ -540,8 +548,8 @@ Proof.
         { intros I0. destruct (W1 j I0) as (y & Ey & My). congruence. }
         constructor; unfold holders, pending, wopen; cbn [w sps jns evt waiters]; fold x'.
         -- exact C.
-        -- intros Q. apply S. unfold pending. rewrite Ee in *. destruct Q; [left; lia|auto].
-        -- intros Z0. destruct (L Z0) as [Q|Q]; [left; rewrite <- Ee; auto | right; unfold pending in Q; lia].
+        -- intros Q. apply S. unfold pending. destruct Q as [Q|Q]; [left; lia|discriminate].
+        -- intros Z0. destruct (L Z0) as [Q|Q]; [congruence | right; unfold pending in Q; lia].
         -- exact K.
         -- intros k [<-|I0].
            ++ exists x'. rewrite nth_error_set_nth_eq by (eapply nth_error_lt; eauto). auto.
@@ -550,15 +558,15 @@ Proof.
         -- intros k y Hy My. apply nth_error_set_nth in Hy.
            destruct Hy as [(-> & _)|(_ & Hy)]; [left; auto | right; eauto].
         -- constructor; auto.
-        -- rewrite Ee. discriminate.
-        -- intros k y Hy Wy. apply nth_error_set_nth in Hy.
-           destruct Hy as [(-> & -> & _)|(_ & Hy)]; [simpl in Wy|]; rewrite <- Ee; eauto.
+        -- discriminate.
+        -- intros k y Hy Wy. apply nth_error_set_nth in Hy. rewrite <- Ee.
+           destruct Hy as [(-> & -> & _)|(_ & Hy)]; [simpl in Wy|]; eauto.
     + (* JSync *)
       inversion H; subst s' evs; clear H.
-      eapply (inv_jn_ready s _ j x); eauto; simpl; auto.
+      jstep s j x.
     + (* JDone *)
       inversion H; subst s' evs; clear H.
-      eapply (inv_jn_ready s _ j x); eauto; simpl; auto.
+      jstep s j x.
   - (* JPend *)
     inversion H; subst s' evs; clear H.
     set (x' := {| jprog := jprog x; jmode_ := JReady; jwaited := jwaited x |}).
